@@ -263,6 +263,10 @@ func vfRunConnScenario(cfg vfConnScenarioCfg) (events []map[string]interface{}, 
 	s, d, err := vfSingleNodeSession(node, cfg.Proto, func(c *ClusterConfig) {
 		c.Timeout = driverTimeout
 		c.StreamObserver = obs
+		// requests that go through Conn.query (the path of the driver's own system queries) must put the
+		// same frame on the wire as the independent encoder expects: no page size, no timestamp
+		c.PageSize = 0
+		c.DefaultTimestamp = false
 		if cfg.Coalesce {
 			c.WriteCoalesceWaitTime = 200 * time.Microsecond
 		}
@@ -386,6 +390,19 @@ func vfRunConnScenario(cfg vfConnScenarioCfg) (events []map[string]interface{}, 
 					xerr = fmt.Errorf("vfpanic: %v", r)
 				}
 			}()
+			if id%5 == 3 && !buildFail {
+				// one request in five takes the path of the driver's internal queries (Conn.query ->
+				// executeQuery -> exec): same frame, same outcomes; the attempt's context is the caller's
+				xerr = conn.query(ctx, tok).Close()
+				var re RequestError
+				if xerr == nil {
+					echoed = tok // (the answer's content is not visible at this level)
+				} else if errors.As(xerr, &re) && fate == "err" && strings.Contains(re.Message(), "tok_") {
+					msg := re.Message()
+					echoed, xerr = msg[strings.Index(msg, "tok_"):], nil
+				}
+				return
+			}
 			fr, xerr = conn.exec(ctx, fb, nil)
 			if xerr == nil {
 				if id%2 == 0 {
